@@ -11,17 +11,23 @@ LEAN_TARGETS = ["Asynkit.Props.C09", "Asynkit.Lemmas.GenEqC09", "Asynkit.Lemmas.
 PROPS_FILES = ["Asynkit/Props/C09.lean", "Asynkit/Lemmas/GenEqC09.lean", "Asynkit/Lemmas/GenEqC15.lean"]
 DRIVERS = ["Kernel"]
 TRUSTED = [
-    "Lean 4.33 kernel; axioms ⊆ {propext, Classical.choice, Quot.sound} (audited per theorem each run)",
-    "hand-written model Asynkit/Model/Kernel.lean (asyncio Future/Task.__step/__wakeup/cancel, call_soon, "
-    "the ready queue as a list, asynkit task_from_handle/queue_find/_task_reinsert/task_is_blocked/"
-    "runnable_tasks/blocked_tasks/task_throw), tied to the running interpreter and to src/asynkit by the "
-    "trace acceptance of this run (every recorded event replayed by lean/Drivers/Kernel.lean, the full "
-    "observable state compared after every event)",
-    "CPython asyncio behaviour is modelled, not verified (3.12.1): Future callbacks scheduling, "
-    "Task.__step/__wakeup/cancel, _run_once popping the head of _ready, current_task/all_tasks",
-    "the harness's classification of ready handles (function identity of Task.__step/__wakeup, probed "
-    "C wrapper types) as ground truth for 'is in the ready queue'",
-    "priority loop observed with equal priorities only (ordering among different priorities is C10)",
+    'Lean 4.33 kernel; axioms ⊆ {propext, Classical.choice, Quot.sound} (audited per theorem each run)',
+    'translated, not trusted: task_is_blocked, task_is_runnable, task_from_handle / is_task_callback '
+    '(translator/py2lean.py, sched2lean.py -> Gen/Sched.lean, Gen/SchedOps.lean; Lemmas/GenEqC09.lean, 3 '
+    'theorems) and task_throw, _task_reinsert, the synchronous prefix of task_interrupt '
+    '(translator/interrupt2lean.py -> Gen/Interrupt.lean; Lemmas/GenEqC15.lean, 8 theorems) are re-translated '
+    "from the source on every run and proved equal to the Kernel model's predicates and events, over the "
+    'primitives of Model/KernelPrims.lean',
+    'hand-written and tied only by the trace acceptance of this run (every recorded event replayed by '
+    'lean/Drivers/Kernel.lean, full observable state compared): the asyncio part of Asynkit/Model/Kernel.lean '
+    '(Future, Task.__step/__wakeup/cancel, call_soon, the ready queue as a list), '
+    'runnable_tasks()/blocked_tasks() as folds of the translated predicates, the C-task path of task_throw (not '
+    'modelled)',
+    'CPython asyncio behaviour is modelled, not verified (3.12.1): Future callbacks scheduling, '
+    'Task.__step/__wakeup/cancel, _run_once popping the head of _ready, current_task/all_tasks',
+    "the harness's classification of ready handles (function identity of Task.__step/__wakeup, probed C wrapper "
+    "types) as ground truth for 'is in the ready queue'",
+    'priority loop observed with equal priorities only (ordering among different priorities is C10)',
 ]
 ASSUMPTIONS = [
     "tasks await plain futures (a Task awaited by another Task is a Future to __step; only cancel "
@@ -49,10 +55,10 @@ TRIVIAL_TAGS = {"obs-outside", "obs-callback", "obs-in-task", "future-setres", "
 # generation
 
 ENV_W = [("step", 40), ("create", 9), ("newfut", 3), ("setres", 6), ("setexc", 3), ("cancelfut", 3),
-         ("addcb", 2), ("cancel", 7), ("cscancel", 6), ("cscb", 2), ("throw", 9), ("nocancel", 4), ("pause", 4)]
-OP_W = [("s", 18), ("w", 24), ("y", 3), ("bad", 2), ("i", 9), ("a", 34), ("ret", 2), ("raise", 2)]
+         ("addcb", 2), ("cancel", 7), ("cscancel", 6), ("cscb", 2), ("throw", 9), ("nocancel", 4), ("throwcls", 3), ("iterobs", 5), ("pause", 4)]
+OP_W = [("s", 18), ("w", 24), ("y", 3), ("bad", 2), ("i", 9), ("icls", 2), ("a", 34), ("ret", 2), ("raise", 2)]
 INNER_W = [("create", 5), ("newfut", 3), ("setres", 6), ("setexc", 2), ("cancelfut", 3), ("addcb", 1),
-           ("cancel", 8), ("cscancel", 6), ("cscb", 1), ("throw", 10), ("nocancel", 3), ("obs", 6)]
+           ("cancel", 8), ("cscancel", 6), ("cscb", 1), ("throw", 10), ("nocancel", 3), ("throwcls", 3), ("iterobs", 4), ("obs", 6)]
 
 
 def pick(rng, table):
@@ -75,6 +81,10 @@ def gen_action(rng, kind, depth):
         return ["throw", rng.randrange(6), int(rng.random() < 0.5)]
     if kind == "nocancel":
         return ["nocancel", rng.randrange(6), int(rng.random() < 0.75)]
+    if kind == "throwcls":
+        return ["throwcls", rng.randrange(6), int(rng.random() < 0.5)]
+    if kind == "iterobs":
+        return ["iterobs", rng.randint(1, 3), int(rng.random() < 0.5)]
     return [kind]
 
 
@@ -87,6 +97,8 @@ def gen_prog(rng, depth=0):
             prog.append([k, rng.randrange(6)])
         elif k == "i":
             prog.append(["i", rng.randrange(6), int(rng.random() < 0.5)])
+        elif k == "icls":
+            prog.append(["icls", rng.randrange(6), int(rng.random() < 0.5)])
         elif k == "a":
             ik = pick(rng, INNER_W)
             if ik == "create" and depth >= 2:
